@@ -126,12 +126,16 @@ def gen_profile(rng, i):
                     else:
                         lines.append(indent + r)
             else:
-                mk = marker(indent)
+                ind = indent
+                if rng.random() < 0.1:
+                    ind = "\t" if indent == "  " else "\t\t"        # this paragraph is indented with tabs
+                    feats.add("tab-indent")
+                mk = marker(ind)
                 if form == "repeat" and prev_marker:
                     mk = prev_marker
                     feats.add("repeated-identical-marker")
                 prev_marker = mk
-                lines.append(indent + mk)
+                lines.append(ind + mk)
                 feats.add("paragraph")
                 if rng.random() < 0.08:
                     # a marker that guards nothing (what is left when the guarded rules are deleted and the marker is forgotten):
@@ -139,7 +143,7 @@ def gen_profile(rng, i):
                     feats.add("empty-paragraph")
                     rules = []
                 for r in rules:
-                    lines.append(indent + r)
+                    lines.append(ind + r)
             lines.append("")
     block("  ", 0)
     if rng.random() < 0.4:
